@@ -303,16 +303,37 @@ def run_debruijn(res, order, shard=0, nshards=1):
     size = (len(seq) + nshards - 1) // nshards
     lo, hi = shard * size, min(len(seq), (shard + 1) * size)
     piece = seq[max(0, lo - (order - 1)): hi]
+    searches = 0
     w = Workers()
     for i, oi in enumerate(piece):
         a = do_op(w, ops[oi])
         res["evals"] += 1
         if a != fresh(ops[oi]):
-            window = piece[max(0, i - order + 1): i + 1]
-            names = ["%s(%s)" % (ops[j][0], doc_name(ops[j])) for j in window]
             R.add_outcome(res, "history_dependent")
-            R.add_violation(res, "window|" + ";".join(names), "in a long history on reused worker objects this window answers differently from fresh objects",
-                            {"window": names, "position": lo + i}, None)
+            # the cause may lie further back than the window: the shortest suffix of the history so far that reproduces the wrong answer on
+            # fresh worker objects is reported as a replayable history (at most 3 such searches per piece)
+            found = None
+            if searches < 3:
+                searches += 1
+                for klen in range(1, min(i + 1, 24) + 1):
+                    h = piece[i - klen + 1: i + 1]
+                    modstate.restore()
+                    w2 = Workers()
+                    last = None
+                    for oj in h:
+                        last = do_op(w2, ops[oj])
+                    if last != fresh(ops[h[-1]]):
+                        found = h
+                        break
+            if found:
+                names = ["%s(%s)" % (ops[j][0], doc_name(ops[j])) for j in found]
+                R.add_violation(res, "history|" + ";".join(names), "reused worker objects answer differently from fresh ones after this history (found inside the long history)",
+                                {"history": [list(map(str, ops[j])) for j in found]}, None)
+            else:
+                window = piece[max(0, i - order + 1): i + 1]
+                names = ["%s(%s)" % (ops[j][0], doc_name(ops[j])) for j in window]
+                R.add_violation(res, "window|" + ";".join(names), "in a long history on reused worker objects this window answers differently from fresh objects "
+                                "(the cause may lie before the window: see the history| violations of the same run)", {"window": names, "position": lo + i}, None)
             w = Workers()
         else:
             R.add_outcome(res, "history_independent")
